@@ -71,7 +71,7 @@ theorem srank_sum_req (s : St) (i : Nat) :
       simp [srank, upd_other s.req true this]
     omega
 
-theorem lbase_le (dl : Dl) (l : LoopPC) : lbase dl l ≤ lbase .past l ∧ lbase .past l ≤ lbase dl l + 4 := by
+theorem lbase_le (dl : Dl) (l : LoopPC) : lbase dl l ≤ lbase .past l ∧ lbase .past l ≤ lbase dl l + 5 := by
   induction l with
   | inClose a ih => simp only [lbase]; omega
   | clean r => cases r <;> simp [lbase]
@@ -175,7 +175,7 @@ theorem own_decreases {sh : Shape} {s t : St} (h : OwnStep sh s t) : measure t <
   | topCtxStream h hc hs => exact loop_plain s _ rfl rfl rfl rfl rfl rfl rfl rfl (by simp only [lrank, h, lbase, lcalls]; omega)
   | topCtxPacket h hc hs => exact loop_plain s _ rfl rfl rfl rfl rfl rfl rfl rfl (by simp only [lrank, h, lbase, lcalls]; omega)
   | topDone h hc hd => exact loop_plain s _ rfl rfl rfl rfl rfl rfl rfl rfl (by simp only [lrank, h, lbase, lcalls]; omega)
-  | topRead h hc hd => exact loop_plain s _ rfl rfl rfl rfl rfl rfl rfl rfl (by simp only [lrank, h, lbase, lcalls]; omega)
+  | topRead h hc hd => exact loop_plain s _ rfl rfl rfl rfl rfl rfl rfl rfl (by cases s.stream <;> simp [lrank, h, lbase, lcalls])
   | cleanDone r h hcl =>
     exact loop_plain s _ rfl rfl rfl rfl rfl rfl rfl rfl (by cases r <;> simp [lrank, h, lbase, lcalls] <;> omega)
   | ctxCloseCall hm h hc =>
@@ -192,8 +192,9 @@ theorem own_decreases {sh : Shape} {s t : St} (h : OwnStep sh s t) : measure t <
     simp only [measure, lrank, h, lbase, lcalls] at *
     crk
     omega
-  | armClosed h hs hd => exact loop_plain s _ rfl rfl rfl rfl rfl rfl rfl rfl (by simp only [lrank, h, lbase, lcalls]; omega)
-  | arm h hd =>
+  | preClosed h hd => exact loop_plain s _ rfl rfl rfl rfl rfl rfl rfl rfl (by simp only [lrank, h, lbase, lcalls]; omega)
+  | preOpen h hd => exact loop_plain s _ rfl rfl rfl rfl rfl rfl rfl rfl (by simp only [lrank, h, lbase, lcalls]; omega)
+  | arm h =>
     exact loop_plain s _ rfl rfl rfl rfl rfl rfl rfl rfl (by cases sh.checkAfterArm <;> simp [lrank, h, lbase, lcalls])
   | checkDone h hd =>
     exact loop_plain s _ rfl rfl rfl rfl rfl rfl rfl rfl (by simp only [lrank, h, lbase, lcalls]; split <;> omega)
